@@ -117,8 +117,11 @@ Examples:
 }
 
 func (args textCmdArgs) convert(w io.Writer, converter astconv.Converter) error {
-	if _, err := astconv.NewASTClassifier().Classify(args.tree); err != nil {
-		return err
+	// a piece of rests only has no notation to classify; it converts the same either way
+	if hasChord(args.tree) {
+		if _, err := astconv.NewASTClassifier().Classify(args.tree); err != nil {
+			return err
+		}
 	}
 
 	result := make([]*input.Instance, len(args.tree.List))
@@ -136,6 +139,15 @@ func (args textCmdArgs) convert(w io.Writer, converter astconv.Converter) error 
 	}
 	_, err = w.Write(b)
 	return err
+}
+
+func hasChord(tree *ast.ChordList) bool {
+	for _, x := range tree.List {
+		if _, ok := x.(*ast.Chord); ok {
+			return true
+		}
+	}
+	return false
 }
 
 var textCmdParse = &cobra.Command{
